@@ -93,11 +93,19 @@ def gen_cases(seed, n_cases):
             elif k == "flip1": ops.append(("flip1", [float(x) for x in rng.integers(50, 500, 3)]))
             elif k == "flipN": ops.append(("flipN", {str(t): [float(x) for x in rng.integers(50, 500, 3)] for t in (1, 2, 3)}))
             else: ops.append((str(k), None))
-        yield (ci, len(rows), tuple(o[0] for o in ops)), {"rows": rows, "ops": ops}
+        # row labels: lists that went through a selection / sort / trimming keep their old labels (no reset) -- gapped or permuted
+        labels = None
+        if ci % 3 == 1:
+            labels = [int(x) for x in np.cumsum(rng.integers(1, 4, n))]
+        elif ci % 3 == 2:
+            labels = [int(x) for x in rng.permutation(n)]
+        yield (ci, len(rows), tuple(o[0] for o in ops)), {"rows": rows, "ops": ops, "labels": labels}
 
 
 def run_case(case):
     m = motl_from_rows(case["rows"])
+    if case.get("labels") is not None:
+        m.df.index = pd.Index(case["labels"])
     for step, (op, arg) in enumerate(case["ops"]):
         before = m.df.copy(); p0 = _pos(before); R0 = rows_R(before)
         if op == "update":
